@@ -34,6 +34,7 @@ func init() {
 			"C38.R5 independence: the remover inspects the last content stream whatever it found in the first",
 			"C38.R6 MPT: the writer leaves each watermarked page with a /Resources entry of its own (the remover requires one)",
 			"C38.R7 TABLE: the end of the watermark's sequence is the first end operator after the marker (Index, not LastIndex)",
+			"C38.R8 shape: the detection walk leaves the loop over a page tree node's kids on ctx.Watermarked (the per-page detector assigns the field for every page)",
 			"C38.R4 siblings: remover and detector inspect the same positions of a /Contents array, the first and the last among them",
 		},
 		Assumptions: []string{"watermark content is produced by wmContent's format constant only"},
@@ -98,6 +99,8 @@ func runC38(c *Ctx) {
 	checkC38PageResourcesWritten(c)
 	r.MinInst["C38.R7"] = 1
 	checkC38FirstTerminator(c)
+	r.MinInst["C38.R8"] = 1
+	checkC38DetectionStops(c)
 	const marker = "/Artifact"
 	// ---- the writer's format
 	wfn := p.Func("pkg/pdfcpu.wmContent")
@@ -498,5 +501,61 @@ func checkC38FirstTerminator(c *Ctx) {
 	})
 	if n == 0 {
 		r.Bad("C38.R7", fid, "end of the sequence", p.Pos(fn.Pos()), "UNDECIDED: no search for the end operator")
+	}
+}
+
+// R8: detection walks the page tree and records its verdict in ctx.Watermarked, which the per-page detector ASSIGNS
+// (true or false) for every page it looks at. What makes the verdict "some page has a watermark" is that the walk stops
+// at the first page that has one: in detectPageTreeNodeWatermarks the loop over the kids leaves the loop on a test of
+// the field Watermarked. Without that exit (or with a local result that a nested /Pages kid does not hand up) a later
+// clean page overwrites the verdict of an earlier watermarked one.
+func checkC38DetectionStops(c *Ctx) {
+	p, r := c.P, c.R
+	const fid = "pkg/pdfcpu.detectPageTreeNodeWatermarks"
+	fn := p.Func(fid)
+	if fn == nil {
+		r.Bad("C38.R8", fid, "anchor", "", "UNRESOLVED-ANCHOR")
+		return
+	}
+	n := 0
+	for _, l := range naturalLoops(fn) {
+		calls := false
+		for b := range l.blocks {
+			for _, in := range b.Instrs {
+				if call, ok := in.(*ssa.Call); ok {
+					if f := staticCallee(call); f != nil && f.Name() == "detectPageTreeChildWatermarks" {
+						calls = true
+					}
+				}
+			}
+		}
+		if !calls {
+			continue
+		}
+		n++
+		stops := false
+		for b := range l.blocks {
+			if len(b.Instrs) == 0 {
+				continue
+			}
+			ifi, ok := b.Instrs[len(b.Instrs)-1].(*ssa.If)
+			if !ok {
+				continue
+			}
+			if !strings.HasSuffix(fieldPath(ifi.Cond), "Watermarked") {
+				continue
+			}
+			if !l.blocks[b.Succs[0]] {
+				stops = true
+			}
+		}
+		if stops {
+			r.OK("C38.R8", fid, "walk stops at the first watermarked page", p.Pos(lastPos(l.header)), "the loop over the kids is left on ctx.Watermarked", true)
+		} else {
+			r.Bad("C38.R8", fid, "walk stops at the first watermarked page", p.Pos(lastPos(l.header)), "the loop over the page tree's kids is not left on ctx.Watermarked: the per-page detector assigns that field for every page, so a clean page visited after a watermarked one resets the verdict and detection reports 'no watermark' for a document that has one")
+		}
+	}
+	if n == 0 {
+		r.Bad("C38.R8", fid, "walk stops at the first watermarked page", p.Pos(fn.Pos()), "UNDECIDED: no loop over the kids that calls detectPageTreeChildWatermarks")
 	}
 }
